@@ -66,9 +66,11 @@ fn reference(tags: &[Tag], i: usize) -> Option<Vec<String>> {
     let mut words: Vec<String> = match t.from { Some(f) => reference(tags, f)?, None => vec![] };
     for w in &t.words { if !words.is_empty() { words.push(String::new()); } words.extend(formats::parse_wsca(WORD_FILES[*w].1)); }
     let into: Vec<String> = if t.alias { formats::parse_alias(ALIAS).0 } else { vec![] };
-    for (f, fi) in &t.entries {
+    for (n, (f, fi)) in t.entries.iter().enumerate() {
         let groups = apply_filter(&formats::parse_rsca(RULE_FILES[*f].1), &filters_for(*f)[*fi].1);
-        match guarded(5_000_000, || asca::run(&groups, &words, &into, &[])) { Out::Ok(Ok(v)) => words = v, _ => return None }
+        // the deromaniser reads the tag's input, i.e. it is in force for the first rule file only
+        let none: Vec<String> = vec![];
+        match guarded(5_000_000, || asca::run(&groups, &words, if n == 0 { &into } else { &none }, &[])) { Out::Ok(Ok(v)) => words = v, _ => return None }
     }
     Some(words)
 }
@@ -79,9 +81,10 @@ fn reference_stages(tags: &[Tag], i: usize) -> Option<Vec<Vec<String>>> {
     for w in &t.words { if !words.is_empty() { words.push(String::new()); } words.extend(formats::parse_wsca(WORD_FILES[*w].1)); }
     let into: Vec<String> = if t.alias { formats::parse_alias(ALIAS).0 } else { vec![] };
     let mut out = vec![];
-    for (f, fi) in &t.entries {
+    for (n, (f, fi)) in t.entries.iter().enumerate() {
         let groups = apply_filter(&formats::parse_rsca(RULE_FILES[*f].1), &filters_for(*f)[*fi].1);
-        match guarded(5_000_000, || asca::run(&groups, &words, &into, &[])) { Out::Ok(Ok(v)) => words = v, _ => return None }
+        let none: Vec<String> = vec![];
+        match guarded(5_000_000, || asca::run(&groups, &words, if n == 0 { &into } else { &none }, &[])) { Out::Ok(Ok(v)) => words = v, _ => return None }
         out.push(words.clone());
     }
     Some(out)
@@ -287,6 +290,44 @@ fn all_configs(max_tags: usize, max_entries: usize) -> Vec<(Vec<Tag>, Vec<usize>
     out
 }
 
+/// one tag with a romanisation file that has both sections (the romaniser is not the inverse of the deromaniser: /d/ prints as `t`, /ð/ as `d`)
+/// and two or three rule files in every order: the deromaniser reads the tag's input and the romaniser writes its output, so the tag's words
+/// equal one library run of all its rules with both alias lists — what `conv tag` exports
+const ALIAS2: &str = "@into\n    q > k\n@from\n    d > t\n    ð > d\n";
+fn alias_stage_box(a: &mut Acc) {
+    let mut orders: Vec<Vec<usize>> = vec![];
+    for x in 0..3 { for y in 0..3 { if x != y { orders.push(vec![x, y]); for z in 0..3 { if z != x && z != y { orders.push(vec![x, y, z]); } } } } }
+    for (n, (ord, wf)) in orders.iter().flat_map(|o| (0..2).map(move |w| (o.clone(), w))).enumerate() {
+        let sb = Sandbox::new("c20a", n);
+        for (nm, t) in RULE_FILES { sb.write(&format!("{}.rsca", nm), t); }
+        for (nm, t) in WORD_FILES { sb.write(&format!("{}.wsca", nm), t); }
+        sb.write("al2.alias", ALIAS2);
+        let cfg = format!("@alpha $al2 [\"{}\"]:\n{}\n", WORD_FILES[wf].0, ord.iter().map(|f| format!("    \"{}\"", RULE_FILES[*f].0)).collect::<Vec<_>>().join(",\n"));
+        sb.write("config.asca", &cfg);
+        a.evals += 1;
+        let o = run_cli(&sb.dir, &["seq", ".", "-o", "-y"]); a.procs += 1;
+        let groups: Vec<RuleGroup> = ord.iter().flat_map(|f| formats::parse_rsca(RULE_FILES[*f].1)).collect();
+        let words = formats::parse_wsca(WORD_FILES[wf].1);
+        let (into, from) = formats::parse_alias(ALIAS2);
+        let Out::Ok(Ok(one_shot)) = guarded(5_000_000, || asca::run(&groups, &words, &into, &from)) else { continue };
+        let want: Vec<String> = one_shot.into_iter().filter(|x| !x.is_empty()).collect();
+        let key = format!("alias-stages|{}", cfg.replace('\n', " ").split_whitespace().collect::<Vec<_>>().join(" "));
+        match out_file(&sb, "alpha") {
+            Some((_, g)) if nonblank(&g) == want => a.ok += 1,
+            got => { a.viols.push(Viol { key: key.clone(), desc: format!("tag `alpha` with a romanisation file: `asca seq` wrote {:?}, one run of all its rules with the same aliases gives {:?} (exit {:?}, stderr {}); config: {}", got, want, o.code, o.stderr.replace('\n', " | "), cfg), case: json!({"config": cfg, "alias_stages": true}) }); continue; }
+        }
+        // and the export of the tag, run through the command line, gives the same words
+        a.evals += 1;
+        let _ = run_cli(&sb.dir, &["conv", "tag", "alpha", "-p", ".", "-o", "h.json"]); a.procs += 1;
+        let _ = run_cli(&sb.dir, &["run", "-j", "h.json", "-o", "replay.wsca"]); a.procs += 1;
+        match sb.read("replay.wsca") {
+            Some(g) if nonblank(&g) == want => a.ok += 1,
+            got => a.viols.push(Viol { key: format!("{}|export", key), desc: format!("`conv tag alpha` + `run -j` gives {:?}, `asca seq` / the library give {:?}; config: {}", got, want, cfg), case: json!({"config": cfg, "alias_stages": true}) }),
+        }
+    }
+    cleanup("c20a");
+}
+
 /// chains root <- mid <- leaf in which root and mid list TWO rule files each (every ordered pair of the three files, no filter) and the leaf one;
 /// declared forwards and backwards. These are the shapes in which the order of an ancestor's own entries matters to the rule history
 fn chain_configs() -> Vec<(Vec<Tag>, Vec<usize>)> {
@@ -360,6 +401,11 @@ pub fn run() -> i32 {
     if !thorough { configs.extend(chain_configs()); }
     let mut t = Acc::default();
     par_fold(configs.len(), 2, Acc::default, |i, a| config_case(i, &configs[i].0, &configs[i].1, a), |a| t.merge(a));
+    let mut tal = Acc::default();
+    alias_stage_box(&mut tal);
+    r.boxes.push(json!({"box": "one tag, romanisation file with both sections, two or three rule files in every order: seq == one library run == conv tag + run -j", "comparisons": tal.evals, "cli_processes": tal.procs, "held": tal.ok}));
+    r.guard(tal.ok >= 40, "alias-stage box: at least 40 comparisons held");
+    t.merge(tal);
     let shapes = shape_configs();
     let mut ts = Acc::default();
     par_fold(shapes.len(), 4, Acc::default, |i, a| shape_case(i, &shapes[i].0, &shapes[i].1, a), |a| ts.merge(a));
